@@ -90,3 +90,218 @@ Lemma words16 block :
   words_le 16 block = map (fun i => le2z (firstn 4 (skipn (4 * i) block))) (seq 0 16).
 Proof. cbn [words_le seq map Nat.mul Nat.add]. rewrite !skipn_skipn. reflexivity. Qed.
 
+
+Definition rc_env (h0 h1 h2 h3 h4 : Z) (block : option val) (s : st10) (xs : list Z) (j rnd : option val) : env :=
+  [("h0", Some (VInt h0)); ("h1", Some (VInt h1)); ("h2", Some (VInt h2)); ("h3", Some (VInt h3)); ("h4", Some (VInt h4));
+   ("block", block);
+   ("al", Some (VInt (al s))); ("bl", Some (VInt (bl s))); ("cl", Some (VInt (cl s))); ("dl", Some (VInt (dl s))); ("el", Some (VInt (el s)));
+   ("ar", Some (VInt (ar s))); ("br", Some (VInt (br s))); ("cr", Some (VInt (cr s))); ("dr", Some (VInt (dr s))); ("er", Some (VInt (er s)));
+   ("x", Some (VList (map VInt xs))); ("j", j); ("rnd", rnd)].
+
+Lemma words_le_length n b : List.length (words_le n b) = n.
+Proof. revert b; induction n; intros b; cbn [words_le List.length]; [reflexivity|]. rewrite IHn. reflexivity. Qed.
+
+Lemma for_loop_nil body e : for_loop body [] e = SNormal e.
+Proof. reflexivity. Qed.
+Lemma for_loop_cons body v r e : for_loop body (v :: r) e = match body v e with SNormal e' => for_loop body r e' | SBrk e' => SNormal e' | o => o end.
+Proof. reflexivity. Qed.
+
+#[local] Opaque ML MR RL RR KL KR.
+#[local] Arguments Nat.div : simpl never.
+#[local] Arguments for_loop : simpl never.
+#[local] Arguments round : simpl never.
+#[local] Arguments words_le : simpl never.
+
+Lemma compress_sem ext fuel h0 h1 h2 h3 h4 block :
+  sem_ripemd__compress ext fuel [VInt h0; VInt h1; VInt h2; VInt h3; VInt h4; VBytes block]
+  = Val (let '(a, b, c, d, e) := compress (h0, h1, h2, h3, h4) block in VTuple [VInt a; VInt b; VInt c; VInt d; VInt e]).
+Proof.
+  destruct tables_ok as (LML & LMR & LRL & LRR & LKL & LKR & BML & BMR & BRL & BRR).
+  unfold sem_ripemd__compress, call, ast_ripemd__compress.
+  pystep.
+  (* the sixteen message words *)
+  repeat match goal with |- context [slice block (Some ?a) (Some ?b)] => rewrite (slice_range block a b) by lia end.
+  cbn [Z.sub Z.to_nat Pos.to_nat Pos.iter_op Nat.add Z.pos_sub Z.opp Pos.pred_double].
+  match goal with |- context [("x", Some (VList ?l))] =>
+    replace l with (map VInt (words_le 16 block)) by (rewrite words16; reflexivity) end.
+  set (xs := words_le 16 block).
+  assert (Lxs : List.length xs = 16%nat) by apply words_le_length.
+  match goal with |- context [for_loop ?b ?items _] => set (body := b); set (its := items) end.
+  assert (Hits : its = map (fun k => VInt (Z.of_nat k)) (seq 0 80)) by reflexivity.
+  set (s0 := {| al := h0; bl := h1; cl := h2; dl := h3; el := h4; ar := h0; br := h1; cr := h2; dr := h3; er := h4 |}).
+  change (for_loop body its _) with (for_loop body its (rc_env h0 h1 h2 h3 h4 (Some (VBytes block)) s0 xs None None)).
+  assert (Hb : forall s k j rnd, (k < 80)%nat ->
+     body (VInt (Z.of_nat k)) (rc_env h0 h1 h2 h3 h4 (Some (VBytes block)) s xs j rnd)
+     = SNormal (rc_env h0 h1 h2 h3 h4 (Some (VBytes block)) (round xs s k) xs (Some (VInt (Z.of_nat k))) (Some (VInt (Z.of_nat (k / 16)))))).
+  { intros s k j rnd Hk.
+    assert (Hr : (k / 16 < 5)%nat) by (apply Nat.div_lt_upper_bound; lia).
+    assert (HML : 0 <= tab ML k < 16) by (rewrite Forall_forall in BML; apply BML, tab_in; lia).
+    assert (HMR : 0 <= tab MR k < 16) by (rewrite Forall_forall in BMR; apply BMR, tab_in; lia).
+    assert (HRL : 0 <= tab RL k <= 32) by (rewrite Forall_forall in BRL; apply BRL, tab_in; lia).
+    assert (HRR : 0 <= tab RR k <= 32) by (rewrite Forall_forall in BRR; apply BRR, tab_in; lia).
+    unfold body, rc_env. pystep. rewrite !shr4.
+    rewrite fi_sem by lia. pystep.
+    rewrite g_ML. pystep. rewrite (index_tab ML k) by lia. pystep.
+    rewrite (index_tabZ xs (tab ML k)) by lia. pystep.
+    change [VInt 0; VInt 1518500249; VInt 1859775393; VInt 2400959708; VInt 2840853838] with (map VInt KL).
+    rewrite (index_tab KL (k / 16)) by lia. pystep.
+    rewrite g_RL. pystep. rewrite (index_tab RL k) by lia. pystep.
+    rewrite rol_sem by lia. pystep. rewrite rol_sem by lia. pystep.
+    rewrite fi_sem by lia. pystep.
+    rewrite g_MR. pystep. rewrite (index_tab MR k) by lia. pystep.
+    rewrite (index_tabZ xs (tab MR k)) by lia. pystep.
+    change [VInt 1352829926; VInt 1548603684; VInt 1836072691; VInt 2053994217; VInt 0] with (map VInt KR).
+    rewrite (index_tab KR (k / 16)) by lia. pystep.
+    rewrite g_RR. pystep. rewrite (index_tab RR k) by lia. pystep.
+    rewrite rol_sem by lia. pystep. rewrite rol_sem by lia. pystep.
+    reflexivity. }
+  clearbody body.
+  assert (HL : forall l s j rnd, Forall (fun k => (k < 80)%nat) l -> exists j' rnd',
+     for_loop body (map (fun k => VInt (Z.of_nat k)) l) (rc_env h0 h1 h2 h3 h4 (Some (VBytes block)) s xs j rnd)
+     = SNormal (rc_env h0 h1 h2 h3 h4 (Some (VBytes block)) (fold_left (round xs) l s) xs j' rnd')).
+  { induction l as [|k l IH]; intros s j rnd Hl.
+    - exists j, rnd. rewrite for_loop_nil. reflexivity.
+    - inversion Hl as [|? ? Hk Hl']; subst. cbn [map]. rewrite for_loop_cons, (Hb s k j rnd Hk).
+      destruct (IH (round xs s k) (Some (VInt (Z.of_nat k))) (Some (VInt (Z.of_nat (k / 16)))) Hl') as (j' & rnd' & E).
+      exists j', rnd'. rewrite E. reflexivity. }
+  assert (Hseq : Forall (fun k => (k < 80)%nat) (seq 0 80)) by (apply Forall_forall; intros k Hk; apply in_seq in Hk; lia).
+  destruct (HL (seq 0 80) s0 None None Hseq) as (j' & rnd' & E).
+  rewrite Hits, E. unfold rc_env. pystep.
+  unfold compress. fold xs. fold s0. reflexivity.
+Qed.
+#[global] Arguments sem_ripemd__compress : simpl never.
+
+(* ---- ripemd160 ---- *)
+Lemma concat_repeat1 {X} (x : X) n : List.concat (repeat [x] n) = repeat x n.
+Proof. induction n; cbn; [reflexivity|]. rewrite IHn. reflexivity. Qed.
+
+Definition vstate (s : state) : val := let '(a, b, c, d, e) := s in VTuple [VInt a; VInt b; VInt c; VInt d; VInt e].
+
+Lemma blocks_map n : forall data off,
+  blocks n (skipn off data) = map (fun k => firstn 64 (skipn (off + 64 * k) data)) (seq 0 n).
+Proof.
+  induction n as [|n IH]; intros data off; [reflexivity|].
+  cbn [blocks seq map]. rewrite Nat.mul_0_r, Nat.add_0_r. f_equal.
+  rewrite skipn_skipn. rewrite (IH data (64 + off)%nat). rewrite <- seq_shift, map_map.
+  apply map_ext. intros k. do 2 f_equal. lia.
+Qed.
+
+Lemma range_items n : 0 <= n -> range_list 0 n 1 = Val (map (fun k => VInt (Z.of_nat k)) (seq 0 (Z.to_nat n))).
+Proof.
+  intros Hn. unfold range_list. change (1 =? 0) with false. change (0 <? 1) with true. cbn [negb].
+  destruct (0 <? n) eqn:E.
+  - rewrite Z.sub_0_r. replace ((n + 1 - 1) / 1) with n by (rewrite Z.div_1_r; lia).
+    f_equal. apply map_ext. intros k. f_equal. lia.
+  - assert (n = 0) by lia. subst. reflexivity.
+Qed.
+
+Lemma compress_call ext fuel s blk :
+  sem_ripemd__compress ext fuel (match vstate s with VTuple l => l | _ => [] end ++ [VBytes blk]) = Val (vstate (compress s blk)).
+Proof.
+  destruct s as [[[[a b] c] d] e]. cbn [vstate app]. rewrite compress_sem.
+  destruct (compress (a, b, c, d, e) blk) as [[[[a' b'] c'] d'] e']. reflexivity.
+Qed.
+
+Definition rm_env (data : list Z) (s : state) (b pad fin : option val) : env :=
+  [("data", Some (VBytes data)); ("state", Some (vstate s)); ("b", b); ("pad", pad); ("fin", fin)].
+
+#[local] Arguments blocks : simpl never.
+#[local] Arguments to_le_fixed : simpl never.
+#[local] Arguments compress : simpl never.
+#[local] Arguments vstate : simpl never.
+
+Lemma land32_ok a : (Z.land a 4294967295 <? 0) || (256 ^ 4 <=? Z.land a 4294967295) = false.
+Proof.
+  change 4294967295 with (Z.ones 32). rewrite Z.land_ones by lia.
+  pose proof (Z.mod_pos_bound a (2 ^ 32) ltac:(lia)) as H. change (256 ^ 4) with (2 ^ 32).
+  apply orb_false_iff. split; [apply Z.ltb_ge|apply Z.leb_gt]; lia.
+Qed.
+
+Lemma ripemd160_sem ext fuel data :
+  agrees (sem_ripemd__ripemd160 ext fuel [VBytes data]) (rmap VBytes (ripemd160 data)).
+Proof.
+  unfold sem_ripemd__ripemd160, call, ast_ripemd__ripemd160, ripemd160.
+  change init_state with (Ok (A := state) (1732584193, 4023233417, 2562383102, 271733878, 3285377520)). cbn [bind].
+  set (s0 := (1732584193, 4023233417, 2562383102, 271733878, 3285377520) : state).
+  pystep.
+  set (len := Z.of_nat (List.length data)).
+  assert (Hlen : 0 <= len) by (unfold len; lia).
+  rewrite (range_items (Z.shiftr len 6)) by (apply Z.shiftr_nonneg; exact Hlen). pystep.
+  change (VTuple [VInt 1732584193; VInt 4023233417; VInt 2562383102; VInt 271733878; VInt 3285377520]) with (vstate s0).
+  match goal with |- context [for_loop ?b _ _] => set (body1 := b) end.
+  assert (Hs1 : forall s k bv pad fin,
+     body1 (VInt (Z.of_nat k)) (rm_env data s bv pad fin)
+     = SNormal (rm_env data (compress s (firstn 64 (skipn (64 * k) data))) (Some (VInt (Z.of_nat k))) pad fin)).
+  { intros s k bv pad fin. unfold body1, rm_env. pystep.
+    rewrite (slice_range data (64 * Z.of_nat k) (64 * (Z.of_nat k + 1))) by lia.
+    replace (Z.to_nat (64 * (Z.of_nat k + 1) - 64 * Z.of_nat k)) with 64%nat by lia.
+    replace (Z.to_nat (64 * Z.of_nat k)) with (64 * k)%nat by lia.
+    destruct s as [[[[a b] c] d] e]. unfold vstate at 1. pystep.
+    rewrite compress_sem. pystep.
+    destruct (compress (a, b, c, d, e) (firstn 64 (skipn (64 * k) data))) as [[[[a' b'] c'] d'] e']. reflexivity. }
+  clearbody body1.
+  assert (H1 : forall l s bv pad fin, exists bv',
+     for_loop body1 (map (fun k => VInt (Z.of_nat k)) l) (rm_env data s bv pad fin)
+     = SNormal (rm_env data (fold_left compress (map (fun k => firstn 64 (skipn (64 * k) data)) l) s) bv' pad fin)).
+  { induction l as [|k l IH]; intros s bv pad fin.
+    - exists bv. rewrite for_loop_nil. reflexivity.
+    - cbn [map]. rewrite for_loop_cons, Hs1.
+      destruct (IH (compress s (firstn 64 (skipn (64 * k) data))) (Some (VInt (Z.of_nat k))) pad fin) as (bv' & E).
+      rewrite E. exists bv'. reflexivity. }
+  set (nb := Z.to_nat (Z.shiftr len 6)).
+  destruct (H1 (seq 0 nb) s0 None None None) as (bv1 & E1). unfold rm_env in E1 at 1. rewrite E1. clear E1 H1 Hs1 body1.
+  assert (Hb1 : map (fun k => firstn 64 (skipn (64 * k) data)) (seq 0 nb) = blocks nb data).
+  { change data with (skipn 0 data) at 2. rewrite (blocks_map nb data 0). apply map_ext. intros k. reflexivity. }
+  rewrite Hb1. set (s1 := fold_left compress (blocks nb data) s0).
+  unfold rm_env. pystep. fold len.
+  (* pad and fin *)
+  assert (Hland : 0 <= Z.land len (-64)) by (apply Z.land_nonneg; left; exact Hlen).
+  rewrite slice_from by exact Hland.
+  unfold fin_of. fold len. change (Z.lnot 63) with (-64).
+  unfold to_bytes_le, z2le. change (8 <? 0) with false. cbn [Z.to_nat Pos.to_nat Pos.iter_op Nat.add].
+  change (Z.of_nat 8) with 8.
+  destruct ((8 * len <? 0) || (256 ^ 8 <=? 8 * len)) eqn:Eov; pystep.
+  { cbn [bind rmap agrees]. exists OverflowError. split; [reflexivity|split; discriminate]. }
+  cbn [bind].
+  rewrite concat_repeat1.
+  set (fin := skipn (Z.to_nat (Z.land len (-64))) data ++ (128 :: repeat 0 (Z.to_nat (Z.land (119 - len) 63))) ++ to_le_fixed 256 8 (8 * len)).
+  replace ((skipn (Z.to_nat (Z.land len (-64))) data ++ 128 :: repeat 0 (Z.to_nat (Z.land (119 - len) 63))) ++ to_le_fixed 256 8 (8 * len))
+    with fin by (unfold fin; rewrite <- app_assoc; reflexivity).
+  change (skipn (Z.to_nat (Z.land len (-64))) data ++ 128 :: repeat 0 (Z.to_nat (Z.land (119 - len) 63)) ++ to_le_fixed 256 8 (8 * len)) with fin.
+  clearbody fin.
+  set (lenf := Z.of_nat (List.length fin)).
+  rewrite (range_items (Z.shiftr lenf 6)) by (apply Z.shiftr_nonneg; unfold lenf; lia). pystep.
+  match goal with |- context [for_loop ?b _ ?e] => set (body2 := b); set (env2 := e) end.
+  assert (Hs2 : forall s k bv pad,
+     body2 (VInt (Z.of_nat k)) [("data", Some (VBytes data)); ("state", Some (vstate s)); ("b", bv); ("pad", pad); ("fin", Some (VBytes fin))]
+     = SNormal [("data", Some (VBytes data)); ("state", Some (vstate (compress s (firstn 64 (skipn (64 * k) fin)))));
+                ("b", Some (VInt (Z.of_nat k))); ("pad", pad); ("fin", Some (VBytes fin))]).
+  { intros s k bv pad. unfold body2. pystep.
+    rewrite (slice_range fin (64 * Z.of_nat k) (64 * (Z.of_nat k + 1))) by lia.
+    replace (Z.to_nat (64 * (Z.of_nat k + 1) - 64 * Z.of_nat k)) with 64%nat by lia.
+    replace (Z.to_nat (64 * Z.of_nat k)) with (64 * k)%nat by lia.
+    destruct s as [[[[a b] c] d] e]. unfold vstate at 1. pystep.
+    rewrite compress_sem. pystep.
+    destruct (compress (a, b, c, d, e) (firstn 64 (skipn (64 * k) fin))) as [[[[a' b'] c'] d'] e']. reflexivity. }
+  clearbody body2.
+  assert (H2 : forall l s bv pad, exists bv',
+     for_loop body2 (map (fun k => VInt (Z.of_nat k)) l) [("data", Some (VBytes data)); ("state", Some (vstate s)); ("b", bv); ("pad", pad); ("fin", Some (VBytes fin))]
+     = SNormal [("data", Some (VBytes data)); ("state", Some (vstate (fold_left compress (map (fun k => firstn 64 (skipn (64 * k) fin)) l) s)));
+                ("b", bv'); ("pad", pad); ("fin", Some (VBytes fin))]).
+  { induction l as [|k l IH]; intros s bv pad.
+    - exists bv. rewrite for_loop_nil. reflexivity.
+    - cbn [map]. rewrite for_loop_cons, Hs2.
+      destruct (IH (compress s (firstn 64 (skipn (64 * k) fin))) (Some (VInt (Z.of_nat k))) pad) as (bv' & E).
+      rewrite E. exists bv'. reflexivity. }
+  set (nf := Z.to_nat (Z.shiftr lenf 6)).
+  unfold env2.
+  match goal with |- context [("pad", ?p)] => destruct (H2 (seq 0 nf) s1 bv1 p) as (bv2 & E2) end.
+  rewrite E2. clear E2 H2 Hs2.
+  assert (Hb2 : map (fun k => firstn 64 (skipn (64 * k) fin)) (seq 0 nf) = blocks nf fin).
+  { change fin with (skipn 0 fin) at 2. rewrite (blocks_map nf fin 0). apply map_ext. intros k. reflexivity. }
+  rewrite Hb2. fold lenf. fold nf.
+  destruct (fold_left compress (blocks nf fin) s1) as [[[[a b] c] d] e]. unfold vstate. pystep.
+  unfold z2le. change (Z.of_nat 4) with 4. cbn [Z.to_nat Pos.to_nat Pos.iter_op Nat.add].
+  rewrite !land32_ok. pystep. cbn [bind rmap agrees].
+  rewrite app_nil_r. reflexivity.
+Qed.
